@@ -29,9 +29,14 @@ func (vc *VC) obligeSafety(kind, goal string, pos token.Pos) {
 func (vc *VC) instr(ins ssa.Instruction) {
 	switch ins := ins.(type) {
 	case *ssa.DebugRef:
-		if id, ok := ins.Expr.(*ast.Ident); ok && !ins.IsAddr && id.Name != "_" {
+		if id, ok := ins.Expr.(*ast.Ident); ok && id.Name != "_" {
 			if _, isFn := ins.X.(*ssa.Function); !isFn {
-				vc.localRefs[id.Name] = append(vc.localRefs[id.Name], localRef{ins.X, vc.cur})
+				if !ins.IsAddr {
+					vc.localRefs[id.Name] = append(vc.localRefs[id.Name], localRef{ins.X, vc.cur, false})
+				} else if _, isAlloc := ins.X.(*ssa.Alloc); isAlloc {
+					// address-taken / captured local: the name denotes the content of its cell
+					vc.localRefs[id.Name] = append(vc.localRefs[id.Name], localRef{ins.X, vc.cur, true})
+				}
 			}
 		}
 	case *ssa.Alloc:
